@@ -688,9 +688,14 @@ class LogicalLinkController(object):
                 log.debug("can't dispatch PDU %s", rcvd_pdu)
 
     def resolve(self, name):
+        sdp = self.sap[1]
+        if sdp is None:
+            # the service discovery component is gone when the link
+            # has been terminated, the documented result is then None
+            return None
         if isinstance(name, (bytes, bytearray)):
-            return self.sap[1].resolve(bytes(name))
-        return self.sap[1].resolve(name.encode('latin'))
+            return sdp.resolve(bytes(name))
+        return sdp.resolve(name.encode('latin'))
 
     def socket(self, socket_type):
         if socket_type == RAW_ACCESS_POINT:
